@@ -6,6 +6,8 @@ mod imp;
 mod props;
 mod props2;
 mod props3;
+mod props4;
+mod props5;
 mod util;
 
 use std::env;
